@@ -1,6 +1,7 @@
 package rdb
 
 import (
+	"bytes"
 	"encoding/binary"
 	"io"
 	"math"
@@ -217,15 +218,32 @@ func (r *RdbReader) readFull(p []byte) error {
 }
 
 func (r *RdbReader) ReadBytesP(n int) []byte {
-	p := make([]byte, n)
-	err := r.readFull(p)
+	p, err := r.ReadBytes(n)
 	panicIfErr(err)
 	return p
 }
 
+// a length up to this many bytes is allocated before it is read
+const rdbEagerReadLimit = 1 << 20
+
 func (r *RdbReader) ReadBytes(n int) ([]byte, error) {
-	p := make([]byte, n)
-	return p, r.readFull(p)
+	if n < 0 {
+		return nil, errors.Errorf("rdb: invalid length %d", n)
+	}
+	if n <= rdbEagerReadLimit {
+		p := make([]byte, n)
+		return p, r.readFull(p)
+	}
+	// a longer length is only what the snapshot claims (one altered byte can make it 2^47) : the
+	// buffer grows with the bytes that are really there
+	var buf bytes.Buffer
+	if _, err := io.CopyN(&buf, r, int64(n)); err != nil {
+		if err == io.EOF {
+			err = io.ErrUnexpectedEOF
+		}
+		return nil, errors.WithStack(err)
+	}
+	return buf.Bytes(), nil
 }
 
 func (r *RdbReader) ReadUint8P() uint8 {
